@@ -8,6 +8,7 @@ pub mod c07;
 pub mod c08;
 pub mod c09;
 pub mod c10;
+pub mod c11;
 pub mod c12;
 
 pub struct Prop {
@@ -29,6 +30,7 @@ pub fn all() -> Vec<Prop> {
         Prop { id: "C06", run: c06::run, subs: c06::subs, rule: c06::RULE, assumptions: c06::ASSUMPTIONS },
         Prop { id: "C10", run: c10::run, subs: c10::subs, rule: c10::RULE, assumptions: c10::ASSUMPTIONS },
         Prop { id: "C12", run: c12::run, subs: c12::subs, rule: c12::RULE, assumptions: c12::ASSUMPTIONS },
+        Prop { id: "C11", run: c11::run, subs: c11::subs, rule: c11::RULE, assumptions: c11::ASSUMPTIONS },
     ]
 }
 
